@@ -17,8 +17,8 @@
 From AV Require Import Base.Bytes Base.Outcome Hash.HashModel Spec.SpecReal Tree.Heap Tree.Ops Tree.Compat Tree.CompatSpec
   Tree.CompatProofs1 Tree.CompatProofs2 Tree.CompatProofs3 Tree.CompatProofs4 Tree.Serialize
   Tree.CompatTyped Tree.CompatProofs5 Tree.CompatReal Tree.CompatBridge Tree.CompatProofs6 Tree.CompatProofs7 Tree.CompatProofs8
-  Tree.CompatHist1 Tree.CompatHist4 Tree.CompatHist5 Tree.CompatHistReal.
-From AV Require Tree.Inv Tree.Script.
+  Tree.CompatHist1 Tree.CompatHist4 Tree.CompatHist5 Tree.CompatHist6 Tree.CompatHistReal.
+From AV Require Tree.Inv Tree.Script Tree.Script2.
 From AV Require Xml.Serializer Xml.RoundTripCanonb.
 From AV Require Xml.Parser.
 Open Scope list_scope.
@@ -287,3 +287,26 @@ Theorem C17_exact_histories_real : forall (tab_el tab_en : nametab) (check_fn : 
   ok_ops RT tab_el tab_en check_fn LATEST root_attrs l Inv.empty_world ->
   forall (f v : N) (r : cres), f_check RT w f v = Val r -> (fst r = [] <-> ValidIn RT w f v).
 Proof. exact exact_histories_real. Qed.
+
+(* [U] PARTIAL over the extended alphabet op2 (Tree/Script2.v): sort, sort of a model, set_version, check_version_compatibility,
+   serialize keep Core /\ TypedU.  pending2 = OpLoad (no Core for the loader anywhere; the merge attaches incoming nodes below
+   existing parents, which needs the PairOK argument along the merge walk) and OpDuplicate (needs the extra invariant that every
+   model root carries the root element type) *)
+Theorem C17_typed_step2_partial : forall (T : tables) (tab_el tab_at tab_en : nametab) (check_fn : N -> list N -> res bool)
+    (float_parse : list N -> option N) (float_fmt : N -> list N)
+    (LATEST name_index name_definition_ref attr_schema_location : N) (root_attrs : list (N * cdata))
+    (o : Script2.op2) (w : world) (r : out Script2.value2) (w' : world),
+  pending2 o = false -> Inv.Core w -> TypedU T w -> op2_ok T w o ->
+  Script2.run_op2 T tab_el tab_at tab_en check_fn float_parse float_fmt LATEST name_index name_definition_ref
+    attr_schema_location root_attrs o w = Val (r, w') -> Inv.Core w' /\ TypedU T w'.
+Proof. exact typed_step2. Qed.
+
+(* [U over histories, F over the tables] exactness after every op2 history without load / duplicate *)
+Theorem C17_exact_histories2_real_partial : forall (tab_el tab_at tab_en : nametab) (check_fn : N -> list N -> res bool)
+    (float_parse : list N -> option N) (float_fmt : N -> list N)
+    (LATEST name_index name_definition_ref attr_schema_location : N) (root_attrs : list (N * cdata))
+    (l : list Script2.op2) (w : world),
+  run_ops2 RT tab_el tab_at tab_en check_fn float_parse float_fmt LATEST name_index name_definition_ref attr_schema_location root_attrs l Inv.empty_world = Val w ->
+  ok_ops2 RT tab_el tab_at tab_en check_fn float_parse float_fmt LATEST name_index name_definition_ref attr_schema_location root_attrs l Inv.empty_world ->
+  forall (f v : N) (r : cres), f_check RT w f v = Val r -> (fst r = [] <-> ValidIn RT w f v).
+Proof. exact exact_histories2_real. Qed.
